@@ -175,3 +175,26 @@ PROPS["C11"] = dict(
     assumptions=["fixtures are deterministic and echo their arguments", "caller-owned variable maps are rebuilt for every call (ggql coerces variable containers in place)"],
     design_ref="DESIGN.md section 5 C11",
 )
+
+PROPS["C07"] = dict(
+    pkg="exec", test="TestC07", engine="exec",
+    quick=dict(checks=6000, shards=3), thorough=dict(checks=320000, shards=16),
+    nt_floor=dict(quick=800, thorough=40000),
+    must_classes=["mode=valid", "mode=faults", "mode=defect", "mode=malformed", "mode=badvars", "layout=single", "layout=pretty", "layout=argline",
+                  "crlf", "comments", "commas", "bom", "rejected-before-execution", "located-field-error-multiline"],
+    level="exploration",
+    technique="property-based testing with a validity predicate on every response (envelope, paths, locations inside the submitted text), differential JSON decoding with encoding/json at three indents, and a layout metamorphic relation",
+    rule="Requests come from five generators: valid (C01 style), with injected resolver faults whose messages are hostile strings (quotes,"
+         " control characters, U+2028, invalid UTF-8) and hostile leaves, with one C10 defect, byte-mutated text (truncate/delete/insert/"
+         "replace), wrong-kind variable maps; each rendered in a drawn layout (single line, one field per line, one argument per line, CRLF,"
+         " comments, commas, BOM). Oracles: only data/errors; errors non-empty list of {message non-empty string, path of strings and"
+         " non-negative ints, locations with line/column >= 1 inside the text}; a field failure's line lies within the lines of that field's"
+         " own tokens; request that does not parse/validate => no non-null data; WriteJSONValue at indent -1/0/2 accepted by encoding/json and"
+         " decoding to the same structure; a second layout gives the same data and error paths. Non-trivial = a response with errors in a"
+         " multi-line layout.",
+    level_text="Validity-predicate search over all kinds of requests; cannot prove the predicate for all inputs.",
+    level_note="Trusted: encoding/json, the layout renderer's token spans. 'The line of the offending token' is asserted for field failures"
+               " (where the token is identifiable); for parse errors only 'inside the submitted document' is asserted.",
+    assumptions=EXEC_ASSUME + ["float32 values are compared through their shortest decimal representation"],
+    design_ref="DESIGN.md section 5 C07",
+)
